@@ -915,9 +915,9 @@ func TestC42(t *testing.T) {
 	// file variant costs a staging round per transition and adds nothing to the
 	// watch logic, so it runs one level shallower in the quick tier; depth 8 does
 	// not fit the 10 min thorough budget, 7 does).
-	depthOf := map[string]int{"macro": 6, "dir": 6, "file": 5, "gate": 5}
+	depthOf := map[string]int{"macro": 5, "dir": 6, "file": 5, "gate": 5}
 	if vr.Thorough() {
-		depthOf = map[string]int{"macro": 8, "dir": 7, "file": 7, "gate": 7}
+		depthOf = map[string]int{"macro": 7, "dir": 7, "file": 7, "gate": 7}
 	}
 	if s := os.Getenv("VERIF_C42_DEPTH"); s != "" { // for measuring tree sizes only
 		var d int
